@@ -63,6 +63,7 @@ func main() {
 		cmds = append(cmds, g.Prelude()...)
 		nsetup := len(cmds)
 		cmds = append(cmds, g.Aliasing(pn)...)
+		cmds = append(cmds, g.Staleness(pn)...)
 		n := *steps/2 + g.R.Intn(*steps)
 		for i := 0; i < n; i++ {
 			cmds = append(cmds, g.Next())
